@@ -36,8 +36,11 @@ def run(ctx):
             continue
         rk = r['retkey']
         if rk == 'n:1':
+            ok = out[2] in ('utc', 'cache')
+            why = 'the loader returns true with a zone that is neither the UTC singleton nor a cached Impl'
+        elif rk == 'n:0':
             ok = out[2] == 'utc'
-            why = 'the loader returns true with a zone that is not the UTC singleton on the UTC short-circuit'
+            why = 'the loader returns false with a zone that is not the UTC singleton'
         else:
             m = re.match(r'^\((.+) != (.+)\)$', rk)
             ok = False
